@@ -19,13 +19,18 @@ Inductive case :=
 (* one MapShards of a statement with one or more sources + a sequence of operations on the
    resulting mapping, each on the measurement of one source *)
 | CQuery (local : N)
-         (views : list (N * list (N * list N)))    (* source key -> metadata view in order: (id, owners) *)
+         (tmin tmax : Z)                           (* query time range, inclusive *)
+         (groups : list (N * list (Z * Z * option Z * bool * list (N * list N))))
+                                                   (* source key -> the retention policy's shard groups in
+                                                      metadata order: start, end, truncated at, deleted,
+                                                      shards (id, owners) *)
          (data : list (N * list N))                (* shard id -> rows inside the query range *)
          (down : list N)                           (* nodes refusing connections *)
          (beh : list (N * list N * N * outcome))   (* (node, sorted ids, call index) -> outcome; default Serve *)
          (srcs : list N)                           (* source keys of the statement, flattened, in order *)
          (ops : list (N * op))                     (* (source key, operation) *)
          (refs : list (list N))                    (* per op: answer of the single-store reference *)
+         (oviews : list (N * list N))              (* per source key: shard ids the metadata lookup returned *)
          (omap : list (N * (list N * list (N * list N))))
                                                    (* observed mapping per source key: local shard ids,
                                                       remote groups (node, sorted shard ids) *)
@@ -84,8 +89,14 @@ Definition res_eqb (q : qres) (r : obs_res) : bool :=
 
 Definition qres_of (r : obs_res) : qres := match r with OErr => QErr | OOk v => QOk v end.
 
-Definition view_of (views : list (N * list (N * list N))) : N -> list shard :=
-  fun src => mk_shards (assoc_get [] views src).
+Definition mk_group (g : Z * Z * option Z * bool * list (N * list N)) : sgroup :=
+  let '(st, en, tr, del, sh) := g in mkSG st en tr del (mk_shards sh).
+
+(* the shards a query of [tmin, tmax] on source [src] has to read, per the model of
+   ShardGroupsByTimeRange (Props.overlap_complete / overlap_sound tie it to the data) *)
+Definition view_of (tmin tmax : Z) (groups : list (N * list (Z * Z * option Z * bool * list (N * list N))))
+  : N -> list shard :=
+  fun src => view_of_groups tmin tmax (map mk_group (assoc_get [] groups src)).
 
 (* oracle per source position, read off the observed mapping of that source *)
 Definition mchoice_of (local : N) (srcs : list N) (omap : list (N * (list N * list (N * list N))))
@@ -99,8 +110,8 @@ Fixpoint seq_all {A} (f : A -> bool) (l : list A) : bool :=
 
 Definition check_case (c : case) : N :=
   match c with
-  | CQuery local views data0 down tab srcs ops refs omap ores ologs =>
-      let view := view_of views in
+  | CQuery local tmin tmax groups data0 down tab srcs ops refs oviews omap ores ologs =>
+      let view := view_of tmin tmax groups in
       let data := lookup_rows data0 in
       let beh := lookup_beh down tab in
       let '(st, res) := model_mrun true local (mchoice_of local srcs omap) view data beh srcs ops in
@@ -109,6 +120,7 @@ Definition check_case (c : case) : N :=
                    let e := assoc_get ([], []) omap src in
                    list_eqb (ids (assoc_get [] (lmap st) src)) (sortN (fst e))
                    && multiset_eqb (canon_map (groups_of (assoc_get [] (rmap st) src))) (snd e)) srcs
+        && seq_all (fun src => list_eqb (map sid (view src)) (assoc_get [] oviews src)) srcs
         && all2 res_eqb (map fst res) ores
         && all2 (fun r l => multiset_eqb (filter (fun k => negb (memN (fst k) down)) (snd r)) l) res ologs
         && all2 (fun o r => list_eqb r (reference (snd o) data (view (fst o)))) ops refs in
